@@ -62,14 +62,25 @@ def _get(shape):
     def make():
         regs = {FC.PDU: Region(FC.PDU, 'sym', hi), TBL: _table(mod, q, o, w)}
         return [Ptr(TBL, 0), 2, Ptr(FC.PDU, 0), 1], regs
-    ws = bpa.analyse(mod, 'Avtp_GetField', make, max_worlds=4, max_steps=100000, gcache=ctx.gcache)
+    ws = bpa.analyse(mod, 'Avtp_GetField', make, max_worlds=32, max_steps=200000, gcache=ctx.gcache)
     key = 'generic-get:q%d:o%d:w%d' % shape
     where = FC.fnloc(ctx, 'Avtp_GetField')
-    if len(ws) != 1 or ws[0].status != 'ok':
-        return ('undecided', key, '%s %s: %s' % (where, fld['name'], '; '.join(str(x.reason) for x in ws)))
-    wd = ws[0]
+    oks, err = FC.ok_worlds(ws)
+    if err:
+        return ('undecided', key, '%s %s: %s' % (where, fld['name'], err))
     R = FC.ret_width(mod, fn)
     exp = FC.expected_get(fld, R)
+    last = None
+    for wd in oks:
+        with FC.with_world(wd.decisions):
+            last = _get_world(wd, shape, fld, key, where, R, exp, lo, hi)
+        if last[0] != 'ok':
+            return last
+    return last
+
+
+def _get_world(wd, shape, fld, key, where, R, exp, lo, hi):
+    q, o, w = shape
     st, info = FC.compare_vec(wd.ret, exp, R)
     if st == 'differs':
         i, wit = info
@@ -102,12 +113,23 @@ def _set(shape):
     def make():
         regs = {FC.PDU: Region(FC.PDU, 'sym', hi), TBL: _table(mod, q, o, w)}
         return [Ptr(TBL, 0), 2, Ptr(FC.PDU, 0), 1, bpa.sym_arg('v', P)], regs
-    ws = bpa.analyse(mod, 'Avtp_SetField', make, max_worlds=4, max_steps=100000, gcache=ctx.gcache)
+    ws = bpa.analyse(mod, 'Avtp_SetField', make, max_worlds=32, max_steps=200000, gcache=ctx.gcache)
     key = 'generic-set:q%d:o%d:w%d' % shape
     where = FC.fnloc(ctx, 'Avtp_SetField')
-    if len(ws) != 1 or ws[0].status != 'ok':
-        return ('undecided', key, '%s %s: %s' % (where, fld['name'], '; '.join(str(x.reason) for x in ws)))
-    wd = ws[0]
+    oks, err = FC.ok_worlds(ws)
+    if err:
+        return ('undecided', key, '%s %s: %s' % (where, fld['name'], err))
+    last = None
+    for wd in oks:
+        with FC.with_world(wd.decisions):
+            last = _set_world(wd, shape, fld, key, where, P, lo, hi)
+        if last[0] != 'ok':
+            return last
+    return last
+
+
+def _set_world(wd, shape, fld, key, where, P, lo, hi):
+    q, o, w = shape
     r = wd.regions[FC.PDU]
     exp = FC.expected_set_mem(fld, P, hi, r.writes)
     for oc in sorted(exp):
@@ -116,6 +138,8 @@ def _set(shape):
         for b in range(8):
             a, e = actb[b], exp[oc][b]
             if a == e:
+                continue
+            if not B.is_unknown(a) and FC.same_under_pc(a, e):
                 continue
             if B.is_unknown(a):
                 return ('undecided', key, '%s: descriptor %s: octet %d bit %d undetermined' % (where, fld['name'], oc, b))
